@@ -284,7 +284,12 @@ def run_case(idx, rng, tier, rep):
             if extra and not missing and not common_bad and all(k in later and later[k] == extra[k][1] for k in extra):
                 # the acknowledgement of frame k also applied (and reported) changes carried by later frames
                 diverged = True
-                rep.violation('C11:ack-applies-pending-changes-of-later-frames',
+                # two mechanisms: the acknowledgement of the *initial* frame (whose values are in force from the start) picking
+                # up the first update_settings sent before it arrived, and - repaired in the library - any acknowledgement
+                # picking up values of a later update_settings
+                key = ('C11:ack-of-initial-frame-applies-first-update-sent-before-it' if frame == 'initial'
+                       else 'C11:ack-applies-pending-changes-of-later-frames')
+                rep.violation(key,
                               'ACK of frame %s reported %s: changes %s belong to SETTINGS frames sent later' % (frame, got, extra),
                               {'role': 'client' if e_client else 'server', 'steps': [str(s) for s in steps[-10:]]})
                 st['alive'] = False
